@@ -304,6 +304,8 @@ def plan(tier, seed):
                                   'check_root': (i, ax, k) == (0, 0, 0)})
     for k in range(len(DEEP)):
         specs.append({'name': 'deep-%d' % k, 'mode': 'deep', 'deep': k})
+    for k in range(len(VERYDEEP)):
+        specs.append({'name': 'verydeep-%d' % k, 'mode': 'verydeep', 'verydeep': k})
     specs.append({'name': 'suite-mesh-tests', 'mode': 'suite', 'files': ['src/mesh_test.py', 'src/error_estimator_test.py']})
     n_r = 16 if tier == 'quick' else 64
     for k in range(n_r):
@@ -372,9 +374,111 @@ def run_deep(spec, acc, focus):
         log.close()
 
 
+VERYDEEP = [
+    # (initial mesh, direction, number of bisections): chains of ~1000 ancestors on boundary / interior / seam edges; the leaf sizes
+    # go down to 2^-1060 (denormal, still exact), so the oracle below works on exact float comparisons only, not on levels
+    ({'space_grid': [0, 1, 2], 'time_grid': [0, 1], 'glued': False}, 'time-to-0', 1060),
+    ({'space_grid': [0, 1, 2], 'time_grid': [0, 1], 'glued': False}, 'space-to-0', 1060),
+    ({'space_grid': [0, 1, 2, 3], 'time_grid': [0, 1], 'glued': True}, 'time-to-0', 1060),
+]
+
+
+def brute_check(leaves, glued, domain, want_neighbours=True):
+    """Geometric rule by exact float comparison on the actual leaves (no levels, no divisions). Returns (problems, n_edges, raised)."""
+    T0, T1, X0, X1 = domain
+    by_t0, by_t1, by_x0, by_x1 = {}, {}, {}, {}
+    for e in leaves:
+        by_t0.setdefault(e.time_interval[0], []).append(e)
+        by_t1.setdefault(e.time_interval[1], []).append(e)
+        by_x0.setdefault(e.space_interval[0], []).append(e)
+        by_x1.setdefault(e.space_interval[1], []).append(e)
+
+    def overlap(a, b):
+        return min(a[1], b[1]) > max(a[0], b[0])
+    bad, n_edges = [], 0
+    for e in leaves:
+        (t0, t1), (x0, x1) = e.time_interval, e.space_interval
+        want = [None] * 4
+        bdr = [t0 == T0, (not glued) and x1 == X1, t1 == T1, (not glued) and x0 == X0]
+        want[0] = [q for q in by_t1.get(t0, []) if overlap(q.space_interval, e.space_interval)]
+        want[2] = [q for q in by_t0.get(t1, []) if overlap(q.space_interval, e.space_interval)]
+        xr = X0 if (glued and x1 == X1) else x1
+        xl = X1 if (glued and x0 == X0) else x0
+        want[1] = [q for q in by_x0.get(xr, []) if overlap(q.time_interval, e.time_interval)]
+        want[3] = [q for q in by_x1.get(xl, []) if overlap(q.time_interval, e.time_interval)]
+        for k in range(4):
+            n_edges += 1
+            edge = e.edges[k]
+            try:
+                got = edge.neighbour_elements()
+            except (Exception, RecursionError) as ex:
+                fr = repo_frame(ex)
+                if fr is None:
+                    raise
+                bad.append('neighbour lookup raised %s at %s:%d for a %s edge' % (type(ex).__name__, fr[1], fr[2], 'boundary' if bdr[k] else 'interior'))
+                continue
+            if bool(edge.on_boundary and not edge.glued) != bdr[k]:
+                bad.append('boundary flag of an edge is %r where the geometry says %r' % (bool(edge.on_boundary and not edge.glued), bdr[k]))
+            if {id(q) for q in got} != {id(q) for q in want[k]} or len(got) != len(want[k]):
+                bad.append('reported neighbours differ from the geometric ones: %d reported, %d geometric (%s edge)' %
+                           (len(got), len(want[k]), 'boundary' if bdr[k] else 'interior'))
+            elif len(got) > 2 or (not bdr[k] and not got):
+                bad.append('edge with %d neighbours (%s edge)' % (len(got), 'boundary' if bdr[k] else 'interior'))
+    return bad, n_edges
+
+
+def run_verydeep(spec, acc, focus):
+    """About a thousand bisections towards t = 0 / x = 0: every leaf edge there has a chain of ~1000 ancestors."""
+    import math
+    from src.mesh import Mesh
+    ms, direction, depth = VERYDEEP[spec['verydeep']]
+    mesh = Mesh(glue_space=ms['glued'], initial_space_mesh=list(ms['space_grid']), initial_time_mesh=list(ms['time_grid']))
+    domain = (ms['time_grid'][0], ms['time_grid'][-1], ms['space_grid'][0], ms['space_grid'][-1])
+    area = (domain[1] - domain[0]) * (domain[3] - domain[2])
+    ax = 0 if direction == 'time-to-0' else 1
+    wit = {'mesh': ms, 'direction': direction}
+    checkpoints = {10, 100, 400, 800, 960, 990, 1000, 1010, 1030, depth}
+    e = [q for q in mesh.leaf_elements if q.time_interval[0] == domain[0] and q.space_interval[0] == domain[2]][0]
+    steps = 0
+    for step in range(1, depth + 1):
+        try:
+            mesh.refine_axis(e, ax)
+        except (Exception, RecursionError) as ex:
+            fr = repo_frame(ex)
+            if fr is None:
+                raise
+            key = 'mesh-op-raised:%s:%s' % (fr[0], type(ex).__name__) if focus == 'C02' else 'neighbours:lookup-raised-during-refine:%s' % type(ex).__name__
+            acc.violation(key, 'bisection number %d towards %s raised %s at %s:%d' % (step, direction, type(ex).__name__, fr[1], fr[2]), dict(wit, step=step))
+            break
+        steps = step
+        e = e.children[0]
+        acc.case('verydeep|%d|%d' % (spec['verydeep'], step), None)
+        if step in checkpoints:
+            leaves = list(mesh.leaf_elements)
+            bad, n_edges = brute_check(leaves, ms['glued'], domain)
+            acc.count('edges_checked', n_edges)
+            if focus == 'C02':
+                tot = math.fsum(q.h_t * q.h_x for q in leaves)
+                bad = [b for b in bad if 'edge with' in b or 'raised' in b]
+                if tot != area:
+                    bad.append('leaf areas sum to %r, domain %r' % (tot, area))
+                keyp = 'mesh-invariant(verydeep):'
+            else:
+                keyp = 'neighbours(verydeep):'
+            for b in bad[:3]:
+                acc.violation(keyp + mech(b), b, dict(wit, step=step, n_leaves=len(leaves)))
+            if bad:
+                break
+    acc.seen('deep:1000-ancestors:' + direction, 1 if steps >= 1040 else 0)
+    acc.worst_of('max_level', max(max(q.levels) for q in mesh.leaf_elements))
+    acc.sample({'mesh': ms, 'direction': direction, 'steps': steps, 'leaves': len(mesh.leaf_elements)}, 'verydeep%d' % spec['verydeep'])
+
+
 def run_shard(spec, acc, focus):
     if spec['mode'] == 'deep':
         return run_deep(spec, acc, focus)
+    if spec['mode'] == 'verydeep':
+        return run_verydeep(spec, acc, focus)
     if spec['mode'] == 'suite':
         from .suite import run_suite
         return run_suite(acc, focus, spec['files'])
